@@ -50,7 +50,8 @@ class Server(object):
         try:
             is_ok = True
             if name not in self.methods:
-                raise AttributeError('Unknown method: {!r}'.format(name))
+                raise AttributeError("'{}' object has no attribute '{}'".format(
+                    type(self).__name__, name))
             result = getattr(self, name)(*args, **kwargs)
         except BaseException as e:
             # whatever a request raises (a SystemExit from evaluated code
